@@ -198,3 +198,23 @@ package validators
 //@ ensures iff: (result != nil) == (def.RequiresUniqueValue && attr.Value != "" && old(indom(uniqueValues, attr.Value)))
 //@ ensures sev: implies(result != nil, result.Severity == diagnostics.DiagnosticError && result.Code == string(diagnostics.DiagAnnotationDuplicateValue) && result.FilePath == g.holder.fileName)
 //@ ensures marked: forall(x, string, indom(uniqueValues, x) == (old(indom(uniqueValues, x)) || (def.RequiresUniqueValue && x == attr.Value)))
+
+// ---- the other per-annotation decisions of the common validator (C10) ----
+//@ func CommonValidator.validateRequiredAnnotationValue props C10,C14,C18
+//@ requires g != nil && g.holder != nil
+//@ ensures iff: (result != nil) == (def.RequiresValue && attr.Value == "")
+//@ ensures sev: implies(result != nil, result.Severity == diagnostics.DiagnosticError && result.Code == string(diagnostics.DiagAnnotationValueMustExist) && result.FilePath == g.holder.fileName)
+//@ func CommonValidator.validateDuplicateAnnotation props C10,C14,C18
+//@ requires g != nil && g.holder != nil
+//@ ensures iff: (result != nil) == (!def.AllowsMultiple && indom(annotationCount, attr.Name) && annotationCount[attr.Name] > 1)
+//@ ensures sev: implies(result != nil, result.Severity == diagnostics.DiagnosticWarning && result.Code == string(diagnostics.DiagAnnotationDuplicate))
+// a body excludes form fields and vice versa: whichever comes second is flagged (the count of the other is positive)
+//@ func CommonValidator.validateMutuallyExclusive props C10,C14,C18
+//@ requires g != nil && g.holder != nil
+//@ ensures iff: (result != nil) == exists(i, 0, len(def.MutuallyExclusive), indom(annotationCount, def.MutuallyExclusive[i]) && annotationCount[def.MutuallyExclusive[i]] > 0)
+//@ ensures sev: implies(result != nil, result.Severity == diagnostics.DiagnosticError && result.Code == string(diagnostics.DiagAnnotationMutuallyExclusive) && result.FilePath == g.holder.fileName)
+//@ loop 0 invariant 0 <= _n && _n <= len(def.MutuallyExclusive) && forall(i, 0, _n, !(indom(annotationCount, def.MutuallyExclusive[i]) && annotationCount[def.MutuallyExclusive[i]] > 0))
+//@ func CommonValidator.validateAnnotationValidInContext props C10,C14,C18
+//@ requires g != nil && g.holder != nil
+//@ ensures iff: (result == nil) == exists(i, 0, len(def.Contexts), def.Contexts[i] == g.holder.source)
+//@ ensures sev: implies(result != nil, result.Severity == diagnostics.DiagnosticWarning && result.Code == string(diagnostics.DiagAnnotationInvalidInContext))
